@@ -280,3 +280,6 @@ def run(chk, repo):
     chk.ob('C15.j', "mapper[unversioned] is (re)assigned only when it is new or the incoming id is not a _PAR_Y copy", cm.where, okj,
            "a _PAR_Y copy can overwrite the mapping of its chrX gene: FusionCatcher fusions of PAR genes are emitted on the N-masked chrY copy (no junction peptides)",
            key=cm.qual + '::par-y-first-wins', fn=cm.qual)
+    from rules.shared import kwname
+    chk.clauses.append('C15.kw (shared R-THREAD) parameters handed on as keyword arguments keep their name: no `a=b` between two parameters of one function')
+    kwname(chk, repo, 'C15.kw', ['parser.STARFusionParser', 'parser.FusionCatcherParser', 'parser.ArribaParser', 'cli.parse_star_fusion', 'cli.parse_fusion_catcher', 'cli.parse_arriba'], floor=0)
